@@ -87,3 +87,18 @@ Fixpoint file_all (s : tstate) (filed : list (Z * Z * Z)) : tstate * list bcast 
       let '(s', out) := file_all (ts r) rest in
       (s', tout r ++ out)
   end.
+
+(* ---------- retryAssignPartitions (kafkaconsumer.go:265-302) ----------
+   The first attempt is unconditional; after a failed attempt the loop waits for the 3 s ticker or for the
+   cancellation that a revocation triggers, whichever comes first.  [cancel] = number of further attempts the
+   loop is allowed before the revocation arrives (a large number = never).  Every attempt asks the broker
+   afresh; its answers are the oracle [attempt]. *)
+Record attempt := { at_com : cres; at_wms : list wres; at_fail : bool }.
+
+Fixpoint retry (cfg : acfg) (parts : list Z) (atts : list attempt) (cancel : nat) : list ares :=
+  match atts with
+  | [] => []
+  | a :: rest =>
+      let r := assign cfg parts (at_com a) (at_wms a) (at_fail a) in
+      r :: (if a_err r then match cancel with O => [] | S c => retry cfg parts rest c end else [])
+  end.
